@@ -386,7 +386,7 @@ func c14Crash(ctx *Ctx) {
 		ctx.Inconclusive("strace not available")
 		return
 	}
-	nScripts := ctx.N(4, 120)
+	nScripts := ctx.N(12, 200)
 	for s := 0; s < nScripts; s++ {
 		// a script: prep ops (not traced) + traced ops
 		var prep, ops []c14Op
@@ -681,7 +681,7 @@ var linModel = porcupine.Model{
 
 func c14Lin(ctx *Ctx) {
 	r := ctx.Rng
-	rounds := ctx.N(4, 200)
+	rounds := ctx.N(16, 400)
 	for round := 0; round < rounds; round++ {
 		dbPath := ctx.Path(uniqueId("lin") + ".db")
 		keys := []string{"data/fanA", "map/fanA", "data/fanB"}[:1+r.Intn(3)]
@@ -823,7 +823,7 @@ func init() {
 		case "lin":
 			c14Lin(ctx)
 		default:
-			n := ctx.N(300, 20000)
+			n := ctx.N(1200, 30000)
 			for i := 0; i < n; i++ {
 				c14Sequential(ctx)
 			}
